@@ -19,7 +19,8 @@ CONTAINER_MUTATORS = {
 }
 FRESH_CALLS = {"copy.deepcopy", "deepcopy", "list", "dict", "set", "tuple", "frozenset", "sorted", "np.array", "numpy.array",
                "np.copy", "np.asarray", "np.zeros", "np.ones", "np.empty", "np.concatenate", "np.vstack", "np.hstack",
-               "defaultdict", "collections.defaultdict", "str", "int", "float", "bool", "len", "range", "enumerate", "zip"}
+               "defaultdict", "collections.defaultdict", "deque", "collections.deque", "OrderedDict", "collections.OrderedDict",
+               "Counter", "collections.Counter", "str", "int", "float", "bool", "len", "range", "enumerate", "zip"}
 SHALLOW_COPY_CALLS = {"copy.copy", "copy"}
 
 
@@ -387,7 +388,7 @@ class Effects:
         return any(stmt is st for st in mf["store_stmts"])
 
     ELEMENTWISE_CALLS = {"list", "tuple", "set", "frozenset", "sorted", "reversed", "copy.copy", "copy", "enumerate", "zip", "dict",
-                         "np.array", "np.asarray", "filter", "iter", "next"}
+                         "np.array", "np.asarray", "filter", "iter", "next", "deque", "collections.deque"}
 
     def obj_roots(self, fk, expr, lvl=0, _active=frozenset()):
         """Parameters the object denoted by `expr` may be (part of); empty set = fresh / unknown-global.
